@@ -214,3 +214,66 @@ func ZZ_C14_overrideComesAndGoes() {
 	nondet.Reach("C14.override.removed", before == "r1" && now == "none" && st.Current == 0)
 	nondet.Reach("C14.override.kept", before == "r1" && now == "r1" && st.Current == 1)
 }
+
+// ZZ_C14_noNodeLeftForTheReplicaSet: "desired equals the number of eligible nodes and current, ready,
+// available equal the numbers of daemon pods that exist, are Ready ..." when that number is zero: the
+// replica set reported pods on every node in an earlier sync (arbitrary stored counters) and now targets
+// no node at all — a canary took every node (replicas 100% or larger than the cluster), or every node
+// left with its pod.  In each role the sync publishes zeros, not what it stored earlier.
+func ZZ_C14_noNodeLeftForTheReplicaSet() {
+	ann := map[string]string{}
+	switch nondet.String("switch", "none", "rolling-update-paused", "rollout-frozen") {
+	case "rolling-update-paused":
+		ann[datadoghqv1alpha1.ExtendedDaemonSetRollingUpdatePausedAnnotationKey] = "true"
+	case "rollout-frozen":
+		ann[datadoghqv1alpha1.ExtendedDaemonSetRolloutFrozenAnnotationKey] = "true"
+	}
+	ds := zzDaemonset(ann)
+	rs := zzReplicaSet()
+	rs.Status.Desired = nondet.Int32("stored.desired", 0, 1000)
+	rs.Status.Current = nondet.Int32("stored.current", 0, 1000)
+	rs.Status.Ready = nondet.Int32("stored.ready", 0, 1000)
+	rs.Status.Available = nondet.Int32("stored.available", 0, 1000)
+	rs.Status.IgnoredUnresponsiveNodes = nondet.Int32("stored.ignoredUnresponsiveNodes", 0, 1000)
+	params, _ := zzParamsV(ds, rs, nil, true)
+	role := nondet.String("role", "active", "canary", "unknown")
+	var st *datadoghqv1alpha1.ExtendedDaemonSetReplicaSetStatus
+	switch role {
+	case "active":
+		res, err := ManageDeployment(fakeapi.New(), ds, params, metav1.Now())
+		nondet.Assert("C14.no-node.noerror", err == nil && res != nil)
+		if err != nil || res == nil {
+			return
+		}
+		nondet.Assert("C14.no-node.nothing-to-do", len(res.PodsToCreate) == 0 && len(res.PodsToDelete) == 0)
+		st = res.NewStatus
+	case "canary":
+		ds.Spec.Strategy.Canary = &datadoghqv1alpha1.ExtendedDaemonSetSpecStrategyCanary{}
+		datadoghqv1alpha1.DefaultExtendedDaemonSetSpec(&ds.Spec, datadoghqv1alpha1.ExtendedDaemonSetSpecStrategyCanaryValidationModeAuto)
+		params.ReplicaSetStatus = string(ReplicaSetStatusCanary)
+		res, err := ManageCanaryDeployment(fakeapi.New(), ds, params)
+		nondet.Assert("C14.no-node.noerror", err == nil && res != nil)
+		if err != nil || res == nil {
+			return
+		}
+		st = res.NewStatus
+	default:
+		params.ReplicaSetStatus = string(ReplicaSetStatusUnknown)
+		res, err := ManageUnknown(fakeapi.New(), params)
+		nondet.Assert("C14.no-node.noerror", err == nil && res != nil)
+		if err != nil || res == nil {
+			return
+		}
+		st = res.NewStatus
+	}
+	nondet.Assert("C14.no-node.status-present", st != nil)
+	if st == nil {
+		return
+	}
+	nondet.Assert("C14.no-node.zeros", nondet.And(st.Desired == 0, st.Current == 0, st.Ready == 0, st.Available == 0))
+	if role == "active" {
+		nondet.Assert("C14.no-node.no-ignored-node", st.IgnoredUnresponsiveNodes == 0)
+	}
+	nondet.Observe("desired", st.Desired)
+	nondet.Reach("C14.no-node.stored-counters-were-not-zero", nondet.And(rs.Status.Current > 0, role == "active"))
+}
